@@ -159,7 +159,9 @@ def _run(cs, tier, run_index, M, X):
 
 
 def call(M, game, sim):
-    with patched_mp(M, sim):
+    import toqito.nonlocal_games.xor_game as X
+
+    with patched_mp(M, sim, more_modules=[X]):
         try:
             return ("ok", game.classical_value())
         except Exception as e:
